@@ -15,8 +15,8 @@ LEVEL = 'proof'
 TRUSTED = [
     'Coq 8.16.1 kernel + vm_compute; real-number axioms of the standard library (sig_forall_dec, sig_not_dec, '
     'functional_extensionality_dep, classic) for the geometry theorems; C17_fields_in_range is axiom-free',
-    'translator tools/points_c17.py: R back end reading of gcd/bear/translate (np.sin cos arcsin arctan2 radians degrees minimum sqrt, '
-    '** 2, augmented assignments); Z back end reading of the divmod chains; shape matchers for `cs = int(round(x * K))`, the finite '
+    'translator tools/points_c17.py: R back end reading of gcd/bear/translate (np.sin cos arcsin arctan2 hypot radians degrees clip, '
+    'augmented assignments); Z back end reading of the divmod chains; shape matchers for `cs = int(round(x * K))`, the finite '
     'guard, the sign test, abs, `x += 360`, the format strings and their argument order, the field split and sign test of dec2dec',
     'Lib/RBase.v: atan2 is numpy.arctan2 on real arguments (signed zeros are not modelled)',
     'Interval tactic: every per-case lemma |model - implementation output| <= tol is checked by the kernel',
@@ -27,13 +27,15 @@ TRUSTED = [
 ]
 ASSUMPTIONS = [
     'binary64 round-off of gcd/bear/translate is bounded per case by tol = 2^-36 * |value| + 2^-46 (compared quantities are O(1) '
-    'sines/cosines: sqrt(hav) vs sin(sep/2); cross and dot product of (y, x) with (sin b, cos b); sin(dec_out) vs factor)',
+    'sines/cosines: cross and dot product of (|u x v|, u.v) with (sin sep, cos sep) for gcd; cross and dot product of (y, x) with '
+    '(sin b, cos b); sin(dec_out) vs factor)',
     'the single rounding satisfies |cs - |x|*K| <= 1/2 + |x|*K*2^-53 + 2^-1075 (binary64 product, then nearest-even integer): '
     'hypothesis of C17_roundtrip_half_unit; PROVED for the PrimFloat model for every finite binary64 x (C17_roundtrip_binary64_*, via '
     'FloatAxioms + Flocq) and additionally validated exactly (Fractions) on every string case; the implementation inherits it through '
     'the character-exact correspondence only',
     'dec2hms on negative input: the theorem is about the wrapped binary64 value x + 360 (one more rounding, <= 2^-45 deg)',
-    'near-antipodal accuracy (sep > 179.9 deg) of the haversine form is a binary64-conditioning statement, decided by execution only',
+    'the 1e-9 deg agreement of gcd with the vector formula in binary64 (0..180 deg, incl. exactly and nearly antipodal pairs) is a '
+    'round-off statement, decided by execution only (strict: no tolerated input class)',
 ]
 HEADER = ("From Coq Require Import Reals.\nFrom Interval Require Import Tactic.\n"
           "From Aegean Require Import Lib.RBase Gen.Sphere Lib.Sphere.\nOpen Scope R_scope.")
@@ -43,8 +45,12 @@ IMPORTS_S = ("From Coq Require Import ZArith String PrimFloat.\nFrom Aegean Requ
              "Open Scope float_scope.\n")
 LD = np.longdouble
 PI_LD = LD('3.14159265358979323846264338327950288')
-ANTIPODE_LIMIT = 179.9      # beyond this the haversine form cannot give 1e-9 deg in binary64 (recorded finding)
-KNOWN_ANTIPODE = (0.0, 0.0, 179.999999, 0.0)
+BEAR_LIMIT = 179.9          # the bearing is undefined at the antipode (and at separation 0): it is compared for 1e-3 <= sep <= 179.9
+# nearly and exactly antipodal pairs (the haversine form returned 180.0 for the first one: 1e-6 deg off)
+ANTIPODES = [(0.0, 0.0, 179.999999, 0.0), (0.0, 0.0, 180.0 - 1e-7, 0.0), (0.0, 0.0, 180.0 - 1e-8, 0.0), (0.0, 0.0, 180.0 - 1e-9, 0.0),
+             (0.0, 0.0, 180.0, 0.0), (10.0, 20.0, 190.0, -20.0), (0.0, 90.0, 77.0, -90.0), (33.0, -90.0, 200.0, 90.0),
+             (17.0, 33.0, 197.0, -33.0 + 1e-9), (17.0, 33.0, 197.0 + 1e-8, -33.0), (300.0, -45.0, 120.0, 45.0 - 1e-6),
+             (359.5, 60.0, 179.5 + 1e-7, -60.0), (120.0, 89.9999, 300.0, -89.9999 - 1e-8), (45.0, 0.0, 225.0, 1e-9)]
 KNOWN_POLE_NAN = (0.0, -8.0, 82.0, 180.0)   # due south onto the south pole: arcsin argument rounds to -1.0000000000000002
 
 
@@ -83,7 +89,7 @@ def angdiff(a, b):
 
 # ------------------------------------------------------------------------------------------
 # the property on the implementation (executable oracle); each returns None or a message
-def pair_problem(p, allow_antipode=False):
+def pair_problem(p):
     A = at()
     ra1, dec1, ra2, dec2 = p
     g = float(A.gcd(ra1, dec1, ra2, dec2))
@@ -93,11 +99,10 @@ def pair_problem(p, allow_antipode=False):
         return f'gcd{p} = {g!r} is outside [0, 180]'
     if abs(g - g2) > 1e-12:
         return f'gcd is not symmetric: gcd{p} = {g!r}, swapped = {g2!r}'
-    if ref <= ANTIPODE_LIMIT or allow_antipode:
-        if abs(g - ref) > 1e-9:
-            return (f'gcd{p} = {g!r} but the angle between the unit vectors (atan2(|u x v|, u.v), 80-bit) is {ref!r}: '
-                    f'difference {g - ref:.3e} deg > 1e-9')
-    if 1e-3 <= ref <= ANTIPODE_LIMIT and abs(dec1) < 89.999:
+    if not abs(g - ref) <= 1e-9:
+        return (f'gcd{p} = {g!r} but the angle between the unit vectors (atan2(|u x v|, u.v), 80-bit) is {ref!r}: '
+                f'difference {g - ref:.3e} deg > 1e-9')
+    if 1e-3 <= ref <= BEAR_LIMIT and abs(dec1) < 89.999:
         b = float(A.bear(ra1, dec1, ra2, dec2))
         pa = ref_pa(ra1, dec1, ra2, dec2)
         tol = 1e-9 + 1e-13 / math.sin(math.radians(ref))
@@ -110,8 +115,6 @@ def triple_problem(t):
     A = at()
     (a, b), (c, d), (e, f) = t
     g13, g12, g23 = float(A.gcd(a, b, e, f)), float(A.gcd(a, b, c, d)), float(A.gcd(c, d, e, f))
-    if max(g13, g12, g23) > ANTIPODE_LIMIT:
-        return None
     if g13 > g12 + g23 + 1e-9:
         return f'triangle inequality: gcd(p,r) = {g13!r} > gcd(p,q) + gcd(q,r) = {g12!r} + {g23!r} for p,q,r = {t}'
     return None
@@ -134,9 +137,9 @@ def translate_problem(q):
     tol = 1e-9 + min(1e-13 / max(cdo, 1e-300), 3e-6)
     if abs(ref - r) > tol:
         return f'translate{q} = ({ro!r}, {do!r}) lies at distance {ref!r} (vector formula), not r = {r!r}'
-    if r <= ANTIPODE_LIMIT and abs(g - r) > tol:
+    if abs(g - r) > tol:
         return f'gcd from the start to translate{q} = ({ro!r}, {do!r}) is {g!r}, not r = {r!r}'
-    if 1e-3 <= r <= ANTIPODE_LIMIT and abs(dec) < 89.999 and abs(do) < 89.999:
+    if 1e-3 <= r <= BEAR_LIMIT and abs(dec) < 89.999 and abs(do) < 89.999:
         pa = ref_pa(ra, dec, ro, do)
         b = float(A.bear(ra, dec, ro, do))
         # x = cos r - sin dec sin dec_out cancels to eps; relative to |(x, y)| = cos dec cos dec_out sin(dlon)
@@ -239,13 +242,15 @@ def gen_pairs(rng, n):
              (359.9999, 10.0, 0.0001, 10.0), (359.5, -30.0, 0.5, -30.2), (0.0, 0.0, 360.0, 0.0), (12.5, -45.0, 12.5, -45.0),
              (0.0, 0.0, 180.0, 0.0), (10.0, 20.0, 190.001, -20.001), (0.0, 0.0, 1e-9, 0.0), (0.0, 0.0, 0.0, 1e-9),
              (200.0, 89.9999999, 20.0, 89.9999999), (350.0, 5.0, 370.0, 5.0), (-10.0, 5.0, 10.0, -5.0),
-             (45.0, 0.0, 135.0, 0.0), (0.0, 0.0, 0.0, 179.0 - 90.0), (120.0, -60.0, 300.0, 59.0)]
+             (45.0, 0.0, 135.0, 0.0), (0.0, 0.0, 0.0, 179.0 - 90.0), (120.0, -60.0, 300.0, 59.0)] + ANTIPODES
     out = list(fixed)
     while len(out) < n:
         k = len(out)
         ra, dec = rand_point(rng)
-        if k % 3 == 0:
-            sep = 10 ** rng.uniform(-9, math.log10(179.0))
+        if k % 12 == 0:     # nearly antipodal: 180 - 1e-9 .. 180 - 1e-3 deg
+            r2, d2 = offset_point(rng, ra, dec, 180.0 - 10 ** rng.uniform(-9, -3))
+        elif k % 3 == 0:
+            sep = 10 ** rng.uniform(-9, math.log10(180.0))
             r2, d2 = offset_point(rng, ra, dec, sep)
         elif k % 3 == 1:
             r2, d2 = rand_point(rng)
@@ -366,9 +371,13 @@ def geometry_goals(pairs, trans):
         ra1, dec1, ra2, dec2 = p
         args = ' '.join(rlit(v) for v in p)
         g = float(A.gcd(*p))
-        v = math.sin(math.radians(g) / 2)
-        goals.append(f"Goal exists h, gcd {args} = deg (2 * asin (Rmin 1 (sqrt h))) /\\ Rabs (sqrt h - sin (rad {rlit(g)} / 2)) <= {tol_of(v)}. "
-                     f"Proof. eexists; split; [apply gcd_eq|]. unfold hav, rad. interval with (i_prec 120). Qed.")
+        # gcd = deg (atan2 h z) with h = |u x v| = hypot y x, z = u.v (h^2 + z^2 = 1): the angle of (z, h) is within asin(tol) of g
+        t = tol_of(math.sin(math.radians(g)))
+        goals.append(f"Goal exists y x z, gcd {args} = deg (atan2 (hypot y x) z) /\\ "
+                     f"Rabs (hypot y x * cos (rad {rlit(g)}) - z * sin (rad {rlit(g)})) <= {t} /\\ "
+                     f"0 <= z * cos (rad {rlit(g)}) + hypot y x * sin (rad {rlit(g)}) + {t}. "
+                     f"Proof. eexists; eexists; eexists; split; [apply gcd_eq|]. unfold sep_y, sep_x, sep_z, hypot, rad. "
+                     f"split; interval with (i_prec 120). Qed.")
         metas.append(('gcd', p, g))
         b = float(A.bear(*p))
         y = math.sin(math.radians(ra2 - ra1)) * math.cos(math.radians(dec2))
@@ -404,7 +413,7 @@ def geometry_goals(pairs, trans):
 def run_geometry(ctx, model_ok, quick):
     rng = ctx.rng
     A = at()
-    pairs = gen_pairs(rng, 60 if quick else 400)
+    pairs = gen_pairs(rng, 74 if quick else 420)
     trans = gen_translates(rng, 50 if quick else 300)
     # ---- certified correspondence
     if model_ok:
@@ -421,15 +430,15 @@ def run_geometry(ctx, model_ok, quick):
     nbad = 0
     for k, p in enumerate(pairs):
         ref = ref_sep(*p)
-        bucket = ('sep<1e-6' if ref < 1e-6 else 'sep<1e-2' if ref < 1e-2 else 'sep<10' if ref < 10 else 'sep<179.9' if ref <= ANTIPODE_LIMIT
-                  else 'sep>179.9')
+        bucket = ('sep<1e-6' if ref < 1e-6 else 'sep<1e-2' if ref < 1e-2 else 'sep<10' if ref < 10 else 'sep<179.9' if ref <= 179.9
+                  else 'sep>179.9' if ref < 180.0 - 1e-6 else 'sep>180-1e-6')
         ctx.case(key=('pair', k) if ref > 0 else None, bucket='pair ' + bucket, sample={'ra1,dec1,ra2,dec2': p} if k in (20, 21) else None)
         msg = pair_problem(p)
         if msg:
             nbad += 1
             ctx.mismatch('gcd / bear against the vector formulas', {'pair': p}, impl=msg, is_violation={'kind': 'pair', 'input': list(p), 'what': msg})
-    ctx.oblige(f'oracle: gcd symmetric, in [0,180], within 1e-9 deg of atan2(|u x v|, u.v) for separations <= {ANTIPODE_LIMIT} deg, bear = '
-               f'position angle in the (north, east) frame, on {len(pairs)} pairs', nbad == 0)
+    ctx.oblige(f'oracle: gcd symmetric, in [0,180], within 1e-9 deg of atan2(|u x v|, u.v) for every separation 0..180 deg (incl. exactly '
+               f'and nearly antipodal pairs), bear = position angle in the (north, east) frame, on {len(pairs)} pairs', nbad == 0)
     nbad = 0
     pts = [(p[0], p[1]) for p in pairs] + [(p[2], p[3]) for p in pairs]
     ntri = 200 if quick else 3000
@@ -486,9 +495,9 @@ def run_geometry(ctx, model_ok, quick):
     nbad = 0
     for k, p in enumerate(pairs):
         g, b = float(A.gcd(*p)), float(A.bear(*p))
-        # sqrt(hav) is what is computed to O(1e-16); 2*asin amplifies that near 180 deg, so compare sin(sep/2)
-        if abs(math.sin(math.radians(float(ga[k])) / 2) - math.sin(math.radians(g) / 2)) > 1e-14 or \
-                (ref_sep(*p) > 1e-3 and ref_sep(*p) < ANTIPODE_LIMIT and angdiff(float(ba[k]), b) > 1e-9):
+        # the atan2 form is well conditioned everywhere: array and scalar calls may differ by the last bits of sin / cos only
+        if not abs(float(ga[k]) - g) <= 1e-12 or \
+                (ref_sep(*p) > 1e-3 and ref_sep(*p) < BEAR_LIMIT and angdiff(float(ba[k]), b) > 1e-9):
             nbad += 1
             msg = f'array call gives gcd={float(ga[k])!r}, bear={float(ba[k])!r}; scalar call gives {g!r}, {b!r} for {p}'
             ctx.mismatch('array vs scalar arguments', {'pair': p}, impl=msg, is_violation={'kind': 'array', 'input': list(p), 'what': msg})
@@ -504,11 +513,14 @@ def run_geometry(ctx, model_ok, quick):
             msg = f'array call gives {float(tra[k])!r}, {float(tdec[k])!r}; scalar call gives {float(ro)!r}, {float(do)!r} for {q}'
             ctx.mismatch('array vs scalar arguments', {'case': q}, impl=msg, is_violation={'kind': 'array', 'input': list(q), 'what': msg})
     ctx.oblige(f'oracle: array arguments give the scalar results ({len(pairs)} pairs, {len(trans)} translations)', nbad == 0)
-    # ---- near-antipodal accuracy clause (binary64 conditioning; decided by execution only)
-    anti = [KNOWN_ANTIPODE]
-    for k in range(12 if quick else 60):
+    # ---- near-antipodal accuracy clause (binary64 round-off; decided by execution only, strict)
+    anti = list(ANTIPODES)
+    for k in range(24 if quick else 200):
         ra, dec = rand_point(rng)
-        delta = 10 ** rng.uniform(-9, -3)
+        if k % 4 == 0:      # the exact antipode of a binary64 point (ra + 180 and -dec are exact)
+            anti.append((float(ra), float(dec), float(ra) + 180.0, -float(dec)))
+            continue
+        delta = 10 ** (rng.uniform(-9, -6) if k % 4 == 1 else rng.uniform(-9, -1))
         ro, do = A.translate(ra, dec, 180.0 - delta, rng.uniform(0, 360))
         if not (math.isfinite(float(ro)) and math.isfinite(float(do))):
             continue
@@ -518,26 +530,22 @@ def run_geometry(ctx, model_ok, quick):
         ctx.case(key=('anti', p), bucket='pair sep>179.9')
         g = float(A.gcd(*p))
         ref = ref_sep(*p)
-        if abs(g - ref) > 1e-9:
+        if not abs(g - ref) <= 1e-9:
             failing.append((p, g, ref))
     if failing:
         failing.sort(key=lambda t: -abs(t[1] - t[2]))
-        known = [t for kind, t in vlib.known_findings('C17') if kind == 'finding' and 'antipod' in t]
         p, g, ref = failing[0]
         line = (f'{len(failing)}/{len(anti)} near-antipodal pairs: gcd differs from the vector formula by more than 1e-9 deg, worst '
-                f'gcd{p} = {g!r} vs {ref!r} ({g - ref:.3e} deg); recorded input gcd{KNOWN_ANTIPODE} = {float(A.gcd(*KNOWN_ANTIPODE))!r} '
-                f'vs {ref_sep(*KNOWN_ANTIPODE)!r}')
+                f'gcd{p} = {g!r} vs {ref!r} ({g - ref:.3e} deg)')
         print('C17 near-antipode clause fails on the implementation: ' + line)
         ctx.notes.append('near-antipode clause: ' + line)
-        if known and abs(float(A.gcd(*KNOWN_ANTIPODE)) - ref_sep(*KNOWN_ANTIPODE)) > 1e-9:
-            ctx.known_lines.append(known[0])
-            failing = []
-        else:
+        for p, g, ref in failing[:3]:
             ctx.mismatch('gcd against the vector formula near the antipode (1e-9 deg)', {'pair': p}, impl=g, model=ref,
-                         is_violation={'kind': 'antipode', 'input': list(p),
-                                       'what': f'gcd{p} = {g!r}, angle between the unit vectors = {ref!r}'})
-    ctx.oblige('oracle: near-antipodal separations (> 179.9 deg) agree with the vector formula to 1e-9 deg, or the failure is the '
-               'recorded finding', not failing)
+                         is_violation={'kind': 'pair', 'input': list(p),
+                                       'what': f'gcd{p} = {g!r}, angle between the unit vectors = {ref!r}: difference '
+                                               f'{g - ref:.3e} deg > 1e-9'})
+    ctx.oblige(f'oracle: {len(anti)} nearly and exactly antipodal pairs (180 - 1e-9 .. 180 deg) agree with the vector formula to 1e-9 deg',
+               not failing)
 
 
 def run_strings(ctx, model_ok, quick):
@@ -649,7 +657,8 @@ def run_strings(ctx, model_ok, quick):
 
 def run(ctx, model_ok=True):
     quick = ctx.tier == 'quick'
-    ctx.rule = ('geometry: coordinate pairs (fixed poles / RA wrap / antipode + log-uniform separations 1e-9..179 deg + uniform on the sphere) '
+    ctx.rule = ('geometry: coordinate pairs (fixed poles / RA wrap / exact and near antipodes + log-uniform separations 1e-9..180 deg + '
+                '180 - 1e-9..1e-3 deg + uniform on the sphere) '
                 'and translate cases; distinct = distinct input tuples, non-trivial = separation (or r) > 0. strings: distinct = distinct '
                 'binary64 inputs (hex), non-trivial = finite and non-zero; carry boundaries (k - 1/2 hundredths, +-2 ulp) are generated for '
                 'minute, degree and hour carries. triangle: distinct triples.')
@@ -704,10 +713,8 @@ def replay(ctx, obj):
         if kind == 'scalar-type' and not msg and A.dec2dms(x) != A.dec2dms(np.float64(x)):
             msg = 'different strings for float and np.float64'
         print(f'input x = {x!r} ({inp}); dec2dms -> {A.dec2dms(x)!r}, dec2hms -> {A.dec2hms(x)!r}')
-    elif kind in ('pair', 'array'):
+    elif kind in ('pair', 'array', 'antipode'):
         msg = pair_problem(tuple(inp)) if len(inp) == 4 else None
-    elif kind == 'antipode':
-        msg = pair_problem(tuple(inp), allow_antipode=True)
     elif kind == 'triple':
         msg = triple_problem(tuple(tuple(x) for x in inp))
     elif kind == 'translate':
